@@ -288,6 +288,10 @@ def step (sp : SpecSt) (model : State) (cmd : String) (impl : String) : SpecOut 
     rd ("k:" ++ a 1) (match kvGet cur (B 1) (B 2) (N 3) with
       | some val => ex ("ok " ++ showPair (B 2, val))
       | none => ex "err")
+  | "getmeta" =>
+    rd ("k:" ++ a 1) (match ((aget? cur.kv (B 1)).getD []).find? (·.1 = B 2) with
+      | some p => if live (N 3) p.2 then ex s!"ok {p.2.ts}/{p.2.ttl}" else ex "err"
+      | none => ex "err")
   | "getall" =>
     let l := liveOf cur (B 1) (N 2)
     rd ("k:" ++ a 1) (if l.isEmpty then ex "err" else ex ("ok " ++ showPairs l))
